@@ -86,7 +86,8 @@ func scenario(k int, r *Rng, p GenParams) (dis []DInput, ops []Op, det bool) {
 			add(r, p, obj(r, DataGeneric, small(), g, 0)), // ID 2 again, after object 4
 			add(r, p, obj(r, DataDeffile, small(), 1, 0)),
 			delSel(r, p, Selector{Kind: SGroup, N: int64(g)}, true, r.Chance(1, 2)), // objects 1 and 2, far apart
-			add(r, p, obj(r, DataGeneric, small(), 1, 0)),
+			add(r, p, obj(r, DataGeneric, small(), 1, 0)), // another group takes the lowest ID the emptied group had
+			add(r, p, obj(r, DataGeneric, small(), g, 0)), // the emptied group gets a member again, with a higher ID
 			delSel(r, p, Selector{Kind: SType, N: DataGeneric}, r.Chance(1, 2), true),
 			{Kind: OpReload},
 			delSel(r, p, Selector{Kind: SCustom, Custom: CSizeGe, N: 0}, true, true),
